@@ -315,6 +315,10 @@ def model_case(draw, tier):
             "mix": draw(st.booleans()), "out2": out2, "target": draw(st.booleans()),
             "weights": [draw(st.sampled_from((None, None, "RR", "NRR"))) for _ in range(nres)],
             "kernel": kern, "kdelta": draw(st.sampled_from((0.1, 0.5, 1.0, 3.0))), "kernel_list": draw(st.booleans()),
+            # second residual of a kernel LIST: its own kernel class / delta (a list whose entries are all alike cannot tell
+            # "corrector[i] for residual i" from "corrector[0] for all")
+            "kernel2": draw(st.sampled_from((None, "Huber", "Cauchy", "SoftLOne"))) if kern else None,
+            "kdelta2": draw(st.sampled_from((0.1, 0.5, 1.0, 3.0))),
             "corrector": draw(st.sampled_from(("auto", "Fast", "Triggs"))) if kern else "auto",
             "opt": opt, "solver": draw(st.sampled_from(("PINV", "LSTSQ") if opt == "GN" else ("Cholesky", "Cholesky", "PINV", "LSTSQ", "CG"))),
             "strategy": draw(st.sampled_from(("Constant", "Adaptive", "TrustRegion"))),
@@ -324,12 +328,19 @@ def model_case(draw, tier):
     return case
 
 
+def kernel_of(case, i):
+    """(kernel name, delta) applied to residual i"""
+    if i >= 1 and case.get("kernel_list") and case.get("kernel") and case.get("kernel2"):
+        return case["kernel2"], case.get("kdelta2", case["kdelta"])
+    return case["kernel"], case["kdelta"]
+
+
 def build_optimizer(case, model, shapes):
     k = case["kernel"]
     kern = None
     if k:
         mk = lambda: KERNELS[k](case["kdelta"])
-        kern = [mk() for _ in shapes] if case["kernel_list"] else mk()
+        kern = [KERNELS[kernel_of(case, i)[0]](kernel_of(case, i)[1]) for i in range(len(shapes))] if case["kernel_list"] else mk()
     corr = None
     if k and case["corrector"] != "auto":
         cls = pp.optim.corrector.FastTriggs if case["corrector"] == "Fast" else pp.optim.corrector.Triggs
@@ -381,11 +392,14 @@ def check_model(case, rec, tol=1e-6):
     kname, kd = case["kernel"], case["kdelta"]
     rows, Jc, rc, Wblocks = 0, [], [], []
     Ws = weights(case, shapes)
-    for (Bn, m), W in zip(shapes, Ws):
+    for ri, ((Bn, m), W) in enumerate(zip(shapes, Ws)):
         n = Bn * m
         r = r0[rows:rows + n].reshape(Bn, m)
         J = Jt[rows:rows + n].reshape(Bn, m, -1)
-        g1 = rho1(kname, kd, (r ** 2).sum(-1))
+        kname_i, kd_i = kernel_of(case, ri)
+        if (kname_i, kd_i) != (kname, kd):
+            rec.label("kernel_list:distinct")
+        g1 = rho1(kname_i, kd_i, (r ** 2).sum(-1))
         s = np.sqrt(g1)[:, None]
         rc.append((s * r).reshape(-1))
         Jc.append((s[:, :, None] * J).reshape(n, -1))
@@ -495,12 +509,17 @@ def check_model(case, rec, tol=1e-6):
             if nt:
                 rec.nt((kinds, glt, "solver_raised", case["solver"], case["strategy"]))
             return
-        # final parameters: either the last trial's answer retracted, or restored
+        # final parameters: a call that did not raise always ends with the LAST trial's answer applied (a rejected trial is undone
+        # and another one follows; the last one allowed is kept whatever its loss): "unchanged" is not an acceptable outcome -
+        # an update that is never applied, or always undone, must be reported.  Every rejected trial contributes one
+        # Exp(-D) Exp(D) pair, which pypose evaluates to the identity only at Exp's accuracy (RETR_TOL |D| each).
         d_last = from_storage(case, rsol.calls[-1][2].reshape(-1))
         stepped = retract(case, base, d_last)
         e1, e0 = param_distance(case, stepped, after), param_distance(case, base, after)
-        t_ = RETR_TOL * max(1.0, float(np.abs(d_last).max()))
-        rec.check(min(e0, e1) <= t_, "lm_update:%s" % glt, lambda: "LM: parameters after the step are neither the retraction of the last solve (%.3g) nor the restored ones (%.3g)" % (e1, e0))
+        dmax = max(float(np.abs(c[2]).max()) if c[2] is not None and c[2].size else 0.0 for c in rsol.calls)
+        t_ = RETR_TOL * max(1.0, dmax) * len(rsol.calls)
+        rec.notes["lm_update"] = max(rec.notes.get("lm_update", 0), e1 / t_)
+        rec.check(e1 <= t_, "lm_update:%s" % glt, lambda: "LM: parameters after the step differ from the retraction of the last solve by %.3g (tol %.3g; distance from the parameters before the call %.3g, %d trials)" % (e1, t_, e0, len(rsol.calls)))
         # the solver's answer itself must solve its system (checks the wrapper saw the real call)
         A, b, x = rsol.calls[-1]
         if case["solver"] in ("Cholesky", "PINV", "LSTSQ"):
